@@ -267,3 +267,25 @@ Theorem C06_lincode_combinations_complete :
     = Ok (true, rest).
 Proof. exact @lc_combinations_complete. Qed.
 Print Assumptions C06_lincode_combinations_complete.
+
+(* Sonic open_combinations -> check_combinations, end to end: for honest commitments, combinations (under distinct labels) of
+   polynomials without degree bounds, and claims that are the stated combinations of the true evaluations, the verifier accepts
+   whatever randomizers it draws and ends on the prover's tape position *)
+From PC Require Import Proofs.SonicLCComplete.
+Theorem C06_sonic_combinations_complete :
+  forall (FO : FieldOps) (FL : FieldLaws FO) g gam h beta n m ck vk,
+    sck_g ck = gpowers g f1 beta n -> sck_gamma ck = gpowers gam f1 beta m ->
+    vk_g (svk_vk vk) = g -> vk_gamma_g (svk_vk vk) = gam -> vk_h (svk_vk vk) = h -> vk_beta_h (svk_vk vk) = fmul h beta ->
+    forall lcs items cs qs ev chal vtape pfs rest,
+      s_lm_honest vk h g gam beta m (s_label_map items) ->
+      sl_agree (s_label_map items) (s_comm_map cs) ->
+      NoDup (map fst lcs) ->
+      (forall l co lab lp st c, In l lcs -> In (co, TPoly lab) (snd l) ->
+          lookup N.compare lab (s_label_map items) = Some (lp, st, c) -> lp_bound lp = None) ->
+      (forall pl pt labels lab terms, In (pl, (pt, labels)) (group_queries qs) -> In lab labels -> In (lab, terms) lcs ->
+          lookup qkey_cmp (lab, pt) (evals_map ev) = Some (LC.lc_value (s_poly_of (s_label_map items) pt) terms)) ->
+      (length (group_queries qs) <= length vtape)%nat ->
+      s_open_combinations ck lcs items qs chal = Ok (pfs, rest) ->
+      s_check_combinations vk lcs cs qs ev pfs chal vtape = Ok (true, rest, length (group_queries qs)).
+Proof. exact @sonic_lc_complete. Qed.
+Print Assumptions C06_sonic_combinations_complete.
